@@ -357,8 +357,9 @@ class WriteFile:
 class Zone:
     """time-zone model: standard / daylight offset (seconds east of UTC), isdst(t) per instant"""
 
-    def __init__(self, std=0, dst=0, isdst=None, second=None):
+    def __init__(self, std=0, dst=0, isdst=None, second=None, past=None):
         self.std, self.dst = std, dst
+        self.past = past  # None, or {instant: offset}: instants at which the zone's rules were different from today's
         self._isdst = isdst  # None: never DST; else callable t -> SymBool|bool
         self._second = second  # None: no instant lies in a repeated hour; else callable t -> SymBool|bool
 
@@ -374,6 +375,13 @@ class Zone:
         return self._isdst(t)
 
     def off(self, t):
+        """the offset that was / is in force at instant t"""
+        if self.past and not isinstance(t, SymInt) and t in self.past:
+            return self.past[t]
+        return self.off_by_todays_rules(t)
+
+    def off_by_todays_rules(self, t):
+        """what time.timezone / time.altzone / tm_isdst give: right unless the rules changed since t"""
         d = self.isdst(t)
         if isinstance(d, bool):
             return self.dst if d else self.std
@@ -634,7 +642,45 @@ class World:
             yield top, dirs, files
 
     def scandir(self, p="."):
-        raise ModelGap("os.scandir")
+        w, base = self, tokens.plain(p)
+
+        class DirEntry:
+            def __init__(self, name):
+                self.name = name
+                self.path = posixpath.join(base, name)
+
+            def is_dir(self, follow_symlinks=True):
+                return w.isdir(self.path)
+
+            def is_file(self, follow_symlinks=True):
+                return w.isfile(self.path)
+
+            def is_symlink(self):
+                return False  # the modelled file system has no symbolic links
+
+            def stat(self, follow_symlinks=True):
+                return w.stat(self.path)
+
+            def inode(self):
+                raise ModelGap("DirEntry.inode")
+
+            def __fspath__(self):
+                return self.path
+
+            def __repr__(self):
+                return "<DirEntry %r>" % self.name
+
+        class It(list):
+            def __enter__(self):
+                return self
+
+            def __exit__(self, *a):
+                return False
+
+            def close(self):
+                pass
+
+        return It(DirEntry(n) for n in self.listdir(base))
 
     def open(self, path, mode="r", *a, **kw):
         p = self._norm(path)
@@ -876,6 +922,8 @@ def install(world, summarise_c4=True, xsd=None):
             ins.set(m, "timezone", fdt.timezone)
         if m.__dict__.get("time") is _real_time:
             ins.set(m, "time", ftime)
+        if getattr(m.__dict__.get("tz"), "__name__", "") == "dateutil.tz":
+            ins.set(m, "tz", clock.FakeTzModule(world))
     ins.set(XP, "dateutil", clock.FakeDateutil(world))
 
     def model_int(x, *a):
